@@ -494,7 +494,7 @@ var c19Main = newPart("C19", "hostile-histories",
 	checkC19)
 
 var jsonValues = []string{"null", "true", "false", "0", "1", "-1", "1.5", "1e3", "1e400", "-1e400", "9007199254740992", "-9007199254740993", "9223372036854775807", "9223372036854775808", "-9223372036854775808", "-9223372036854775809",
-	"18446744073709551615", "18446744073709551616", "4294967296", "3000000", "\"\"", "\" \"", "\"\\t\\n\"", "\"x\"", "\"\\u0000\"", "[]", "[1]", "{}", "{\"a\":1}", "\"OCRA-1:HOTP-SHA1-6:QN08\"", "\"18446744073709551615\"", "\"TOTP\"", "\"steam\"", "\"totp \"", "\"hotp\"", "\"SHA384\"", "\"7\"", "\"sha1\""}
+	"18446744073709551615", "18446744073709551616", "4294967296", "3000000", "\"\"", "\" \"", "\"\\t\\n\"", "\"x\"", "\"\\u0000\"", "[]", "[1]", "{}", "{\"a\":1}", "\"OCRA-1:HOTP-SHA1-6:QN08\"", "\"18446744073709551615\"", "\"OCRA-1:HOTP-SHA1-6:QN08\\r\\nContent-Length: 0\\r\\n\\r\\n\"", "\"x\\r\\nX-Injected: 1\"", "\"a\\nb\"", "\"OCRA-1:HOTP-SHA1-6:QN08\\n\"", "\"TOTP\"", "\"steam\"", "\"totp \"", "\"hotp\"", "\"SHA384\"", "\"7\"", "\"sha1\""}
 
 var hostilePaths = []string{"/nope", "/totp", "/totp/generate/x", "/totp/generat", "/ocra", "/otp", "/TOTP/GENERATE", "/totp/generate/", "//totp/generate", "/totp%2Fgenerate", "/totp/generate%00", "/./totp/generate", "/totp/../totp/generate",
 	"/docs", "/docs/", "/docs/index.html", "/docs/doc.json", "/docs/nope", "/?x=1", "/otp/secret?algorithm=SHA999", "/otp/secret?algorithm=" + strings.Repeat("A", 3000), "/" + strings.Repeat("a", 4000), "/favicon.ico", "*"}
@@ -1463,4 +1463,116 @@ func TestC19_CompressedBodies(t *testing.T) {
 		}
 	}
 	c19Zip.rec().Exhaustive()
+}
+
+// ---------------------------------------------------------------------------
+// Control characters in string fields. A JSON string may carry CR, LF, NUL. Whatever the service does with such a value —
+// refuse it, use it — the bytes it sends back are one well-formed HTTP response, and the connection is still in step for the
+// next request: a value echoed into the status line or a header (a "friendlier" error) splits the response.
+type c19CtlCase struct {
+	Ep    string `json:"ep"`
+	Field string `json:"field"`
+	Value string `json:"value"`
+}
+
+var c19Ctl = newPart("C19", "control-characters",
+	"complete product: every string field of every POST endpoint (and of the OCRA input object) x string values carrying CR / LF / CRLF header look-alikes / NUL / a 300-character line, in front of, behind and instead of the field's regular value; each request is sent on a connection the harness holds, its answer is read with a strict HTTP parser (status line, header syntax, Content-Length framing), and the RFC probe follows ON THE SAME CONNECTION and must be answered correctly; every case distinct and non-trivial",
+	func(c c19CtlCase) verdict {
+		sv := server()
+		labels := []string{"ep=" + c.Ep}
+		base := baseBody(c.Ep)
+		if strings.HasPrefix(c.Field, "input.") {
+			in, _ := base["input"].(map[string]any)
+			if in == nil {
+				in = map[string]any{}
+			}
+			in[c.Field[len("input."):]] = c.Value
+			base["input"] = in
+		} else {
+			base[c.Field] = c.Value
+		}
+		body, _ := json.Marshal(base)
+		conn, err := net.DialTimeout("tcp", sv.addr, 5*time.Second)
+		if err != nil {
+			return bad(true, labels, "cannot connect: %v (server alive: %v)", err, sv.alive())
+		}
+		defer conn.Close()
+		br := bufio.NewReader(conn)
+		send := func(path string, b []byte) (int, []byte, error) {
+			conn.SetDeadline(time.Now().Add(15 * time.Second))
+			fmt.Fprintf(conn, "POST %s HTTP/1.1\r\nHost: x\r\nContent-Type: application/json\r\nContent-Length: %d\r\n\r\n%s", path, len(b), b)
+			resp, err := http.ReadResponse(br, nil)
+			if err != nil {
+				return 0, nil, err
+			}
+			defer resp.Body.Close()
+			for k, vs := range resp.Header {
+				for _, v := range vs {
+					if strings.ContainsAny(k+v, "\r\n") {
+						return 0, nil, fmt.Errorf("header %q: %q carries a line break", k, v)
+					}
+				}
+			}
+			rb, rerr := io.ReadAll(resp.Body)
+			return resp.StatusCode, rb, rerr
+		}
+		st, rb, err := send(postEndpoints[c.Ep], body)
+		if err != nil {
+			// once more, alone, on a fresh connection with twice the patience: only a second miss counts (machine load)
+			conn.Close()
+			conn, err = net.DialTimeout("tcp", sv.addr, 10*time.Second)
+			if err != nil {
+				return bad(true, labels, "cannot connect again: %v (server alive: %v)", err, sv.alive())
+			}
+			br = bufio.NewReader(conn)
+			time.Sleep(200 * time.Millisecond)
+			if st, rb, err = send(postEndpoints[c.Ep], body); err != nil {
+				return bad(true, labels, "POST %s with %s = %q: the answer is not one well-formed HTTP response (two attempts): %v", postEndpoints[c.Ep], c.Field, c.Value, err)
+			}
+			labels = append(labels, "slow-once")
+		}
+		if st < 100 || st > 599 {
+			return bad(true, labels, "POST %s with %s = %q: status %d", postEndpoints[c.Ep], c.Field, c.Value, st)
+		}
+		if st >= 200 && st < 300 && !successPayload(c.Ep, rb) {
+			return bad(true, labels, "POST %s with %s = %q answered %d %s; the status claims success but the answer is not the endpoint's result", postEndpoints[c.Ep], c.Field, c.Value, st, trunc(string(rb), 160))
+		}
+		pst, pb, perr := send("/hotp/generate", []byte(`{"secret":"GEZDGNBVGY3TQOJQGEZDGNBVGY3TQOJQ","counter":1,"digits":"6","algorithm":"SHA1"}`))
+		if perr != nil || pst != 200 || !strings.Contains(string(pb), `"287082"`) {
+			return bad(true, labels, "after POST %s with %s = %q (answered %d), the next request on the same connection is answered with status %d %s (%v); want 200 with the RFC 4226 value 287082 — what came back for the first request was more, or less, than one response", postEndpoints[c.Ep], c.Field, c.Value, st, pst, trunc(string(pb), 160), perr)
+		}
+		if !sv.alive() || sv.stderr.alarm() {
+			return bad(true, labels, "the server died or reports a panic: %s", tailStr(sv.stderr.String(), 600))
+		}
+		return ok(true, append(labels, fmt.Sprintf("status=%dxx", st/100))...)
+	})
+
+func TestC19_ControlCharacters(t *testing.T) {
+	defer c19Ctl.rec().Flush()
+	inject := []string{"\r\nContent-Length: 0\r\n\r\n", "\r\nX-Injected: 1", "\n", "\r", "\nb", "\x00", "\r\n\r\nHTTP/1.1 200 OK\r\nContent-Length: 2\r\n\r\n{}", strings.Repeat("a", 300) + "\r\n"}
+	i := 0
+	for _, ep := range []string{"totp-gen", "totp-val", "hotp-gen", "hotp-val", "ocra-gen", "ocra-val", "suite", "url"} {
+		var fields []string
+		for f, ft := range fieldTypes[ep] {
+			if ft == "s" {
+				fields = append(fields, f)
+			}
+		}
+		if ep == "ocra-gen" || ep == "ocra-val" {
+			fields = append(fields, "input.challenge_hex", "input.session_info_hex")
+		}
+		sort.Strings(fields)
+		for _, f := range fields {
+			regular, _ := baseBody(ep)[f].(string)
+			for _, inj := range inject {
+				for _, v := range []string{inj, regular + inj, inj + regular} {
+					i++
+					if ev.Mine(i) {
+						c19Ctl.each(t, c19CtlCase{Ep: ep, Field: f, Value: v})
+					}
+				}
+			}
+		}
+	}
+	c19Ctl.rec().Exhaustive()
 }
